@@ -127,10 +127,23 @@ def ref_governing(ranges, po):
     return best
 
 
+def is_token_ref(t):
+    return isinstance(t, str) and t != "" and all(c in TCHAR for c in t)
+
+
 def offer_parse_ref(o):
-    if isinstance(o, tuple):          # pre-parsed AcceptOffer stand-in: ("obj", type, subtype, params)
-        return (o[1], o[2], [tuple(p) for p in o[3]])
+    if isinstance(o, tuple):          # AcceptOffer stand-in ("obj", type, subtype, params): same rules as the text form
+        t, st, ps = o[1], o[2], [tuple(p) for p in o[3]]
+        if not (is_token_ref(t) and is_token_ref(st) and all(is_token_ref(n) and n not in ("q", "Q") for n, _ in ps)):
+            return None
+        if t == "*" or st == "*":
+            return None
+        return (ascii_lower(t), ascii_lower(st), [(ascii_lower(n), v) for n, v in ps])
     return ref_parse_media_type(o)
+
+
+def normalised_obj(o):
+    return isinstance(o, tuple) and offer_parse_ref(o) == (o[1], o[2], [tuple(p) for p in o[3]])
 
 
 def ref_accept(ranges, offers):
@@ -341,6 +354,14 @@ def gen_offers(rng, pool, ranges, objs=True):
                 offers.append(spell_offer(rng, t, st, ps))
         elif r < 0.72:
             offers.append(rng.choice(HTMLS + ["application/json", "text/plain", "image/png", "zz/yy"]))
+        elif r < 0.76 and objs:
+            # hand-built AcceptOffer: upper case, wildcard, non-token components, or a case variant of a pool type
+            if concrete and rng.random() < 0.6:
+                t, st, ps = rng.choice(concrete)
+                offers.append(("obj", rng.choice([t.upper(), t.capitalize(), t]), rng.choice([st.upper(), st, "*"]),
+                               [[rng.choice([n.upper(), n.capitalize(), ascii_lower(n)]), v] for n, _, v in ps]))
+            else:
+                offers.append(non_normal_obj(rng))
         elif r < 0.8:
             offers.append(rng.choice(WILDCARD_OFFERS))
         elif r < 0.9:
@@ -452,6 +473,20 @@ def impl_parse_offer(s):
 # ----------------------------------------------------------------------------------------------
 # Oracles (return None or (key, message))
 # ----------------------------------------------------------------------------------------------
+ODD_KEY = "accept:acceptoffer-instance-not-normalised"
+
+
+def odd_obj_key(offers, got, want, default):
+    """ODD_KEY when the only disagreement concerns hand-built AcceptOffer instances that parse_offer would have
+    normalised or refused (upper case, wildcard, non-token components); `default` otherwise."""
+    if not isinstance(got, list) or not isinstance(want, list):
+        return default
+    odd = [json.dumps(canon_ref_offer(o)) for o in offers if isinstance(o, (tuple, list)) and not normalised_obj(tuple(o))]
+    if odd and [g for g in got if json.dumps(g[0]) not in odd] == [w for w in want if json.dumps(w[0]) not in odd]:
+        return ODD_KEY
+    return default
+
+
 def classify_accept(header, ranges, offers, got, want):
     """A specific key for a disagreement between webob and the reference."""
     for o in offers:
@@ -460,6 +495,8 @@ def classify_accept(header, ranges, offers, got, want):
             return "accept:offer-with-trailing-newline-accepted"
     if isinstance(got, Err):
         return "accept:raises-" + got.name
+    if odd_obj_key(offers, got, want, None):
+        return ODD_KEY
     gs = [json.dumps(g[0]) for g in got]
     ws = [json.dumps(w[0]) for w in want]
     if sorted(gs) != sorted(ws):
@@ -524,7 +561,7 @@ def oracle_nohdr(kind, header, offers):
     got = catch(lambda: canon_result(h.acceptable_offers([mk_offer(o) for o in offers])))
     want = [[canon_ref_offer(o), 1000] for o in offers if offer_parse_ref(o) is not None]
     if got != want:
-        key = "accept-nohdr:offers"
+        key = odd_obj_key(offers, got, want, "accept-nohdr:offers")
         if isinstance(got, list) and any(isinstance(g[0], str) and g[0].endswith("\n") for g in got):
             key = "accept:offer-with-trailing-newline-accepted"
         return (key, "%s(%r).acceptable_offers(%r) gave %r, expected %r" % (type(h).__name__, header, offers, got, want))
@@ -542,7 +579,7 @@ def oracle_request(header, ranges, offers):
     want = [[canon_ref_offer(o), q] for o, q in ref_accept(ranges, offers)]
     if got != want:
         key = classify_accept(header, ranges, offers, got, want)
-        if key != "accept:offer-with-trailing-newline-accepted":
+        if key not in ("accept:offer-with-trailing-newline-accepted", ODD_KEY):
             key = "accept:request-attribute"
         return (key, "Request.accept for %r offers %r gave %r, the property says %r" % (header, offers, got, want))
     # consumer: error body type follows the first acceptable of [text/html, application/json]
@@ -643,7 +680,7 @@ def small_accept_universe():
 
 SMALL_OFFERS = ["text/html", "TEXT/html", "text/html;a=1", "text/html;A=\"1\"", "text/html;a=2", "text/html;a=1;b=2", "text/html;b=2;a=1",
                 "text/plain", "text/plain;a=1", "image/png", "text/*", "*/*", "text/html", "bogus", ("obj", "text", "html", [["a", "1"]]),
-                "application/xml"]
+                "application/xml", ("obj", "Text", "HTML", []), ("obj", "text", "*", []), ("obj", "TEXT", "html", [["A", "1"]])]
 
 
 def small_simple_universe(encoding):
@@ -821,7 +858,7 @@ def oracle_history(family, header, struct, calls):
                 else:
                     want = ref_simple([tuple(e) for e in struct], call[1], family == "encoding")
                 if got != want:
-                    return (family + ":stateful:answer-differs-from-reference",
+                    return (odd_obj_key(call[1], got, want, family + ":stateful:answer-differs-from-reference"),
                             "%s header %r call %r in history %r gave %r, the property says %r"
                             % (family, header, call, calls, got, want))
     return None
@@ -997,7 +1034,8 @@ def oracle_config(family, header, struct, offers):
         else:
             want = ref_simple(struct, offers, family == "encoding")
         if plain != want:
-            return (family + ":config:create", "%s header %r offers %r gave %r, the property says %r" % (family, header, offers, plain, want))
+            return (odd_obj_key(offers, plain, want, family + ":config:create"),
+                    "%s header %r offers %r gave %r, the property says %r" % (family, header, offers, plain, want))
     for how in HOWS:
         try:
             h = obtain(family, header, how, struct)
@@ -1126,15 +1164,16 @@ def oracle_outside(family, header, struct, offers, rng):
         got = catch(lambda: canon_result(h.acceptable_offers(list(wide))))
         want = py_lower_ref_simple(struct, wide, family == "encoding") if valid else [[o, 1000] for o in wide]
     if got != want:
-        return (family + ":outside:non-latin1-offers", "%s header %r offers %r gave %r, expected %r" % (family, header, wide, got, want))
-    # (3) non-normalised AcceptOffer objects are passed through as they are (no normalisation, no validation)
+        return (odd_obj_key(wide, got, want, family + ":outside:non-latin1-offers"),
+                "%s header %r offers %r gave %r, expected %r" % (family, header, wide, got, want))
+    # (3) hand-built AcceptOffer objects: in the statement's domain (same verdict as their text form)
     if family == "accept":
         odd = list(offers) + [non_normal_obj(rng), non_normal_obj(rng)]
         got = catch(lambda: canon_result(h.acceptable_offers([mk_offer(o) for o in odd])))
         want = [[canon_ref_offer(o), q] for o, q in ref_accept(struct, odd)] if valid else \
             [[canon_ref_offer(o), 1000] for o in odd if offer_parse_ref(o) is not None]
         if got != want:
-            return ("accept:outside:raw-AcceptOffer", "Accept %r offers %r gave %r, pass-through semantics give %r" % (header, odd, got, want))
+            return (odd_obj_key(odd, got, want, "accept:acceptoffer-instance"), "Accept %r offers %r gave %r, the property says %r" % (header, odd, got, want))
     # (4) offers that are not str: only TypeError / AttributeError, or a sane result
     for bad in (b"text/html", None, 7, ("text", "html"), ["text/html"]):
         mixed = list(objs) + [bad]
@@ -1154,8 +1193,11 @@ def oracle_outside(family, header, struct, offers, rng):
             res = hw.acceptable_offers(list(objs))
         except Exception as e:  # noqa
             return (family + ":outside:non-latin1-header", "header %r raised %s" % (weird, type(e).__name__))
-        if isinstance(hw, valid_class(family)) or len(res) != len([o for o in offers if family != "accept" or offer_parse_ref(o) is not None]):
-            return (family + ":outside:non-latin1-header", "header %r gave a %s answering %r" % (weird, type(hw).__name__, res))
+        gotw = catch(lambda: canon_result(res))
+        wantw = [[canon_ref_offer(o), 1000] for o in offers if family != "accept" or offer_parse_ref(o) is not None]
+        if isinstance(hw, valid_class(family)) or gotw != wantw:
+            return (odd_obj_key(offers, gotw, wantw, family + ":outside:non-latin1-header"),
+                    "header %r gave a %s answering %r, expected %r" % (weird, type(hw).__name__, gotw, wantw))
     return None
 
 
@@ -1294,8 +1336,8 @@ def corr_followup(ctx, name, cases, bad):
 
 def non_normal_obj(rng):
     """AcceptOffer instances that parse_offer would not have produced (model mirrors the pass-through)."""
-    return ("obj", rng.choice(["Text", "text", "*", "TEXT"]), rng.choice(["html", "HTML", "*"]),
-            rng.choice([[], [["A", "1"]], [["a", "1"]]]))
+    return ("obj", rng.choice(["Text", "text", "*", "TEXT", "te xt", "", "image"]), rng.choice(["html", "HTML", "*", "Plain", "h\xe9"]),
+            rng.choice([[], [], [["A", "1"]], [["a", "1"]], [["Level", "1"]], [["q", "1"]], [["a b", "1"]], [["LEVEL", "a b"]]]))
 
 
 # ----------------------------------------------------------------------------------------------
@@ -1587,8 +1629,7 @@ def run(ctx):
     ctx.extra["exhaustive"] = False
     ctx.assume += [
         "offers are str (code points < 256: str.lower is modelled for latin-1 only; U+212A KELVIN SIGN lower-cases to ASCII 'k' "
-        "in CPython) or AcceptOffer instances as Accept.parse_offer produces them (lower-case type/subtype/parameter names, "
-        "concrete) — hand-built non-normalised AcceptOffer objects are outside the property (the model still mirrors them)",
+        "in CPython) or AcceptOffer instances with str fields, hand-built ones included (held to the rules of their text form)",
         "'identical parameters' is read as the same sequence of (lower-cased name, unquoted value) pairs: parameter order and "
         "value case are significant, as in webob; a parameter named q cannot occur in an offer (Accept grammar)",
         "type/* and */* ranges match regardless of parameters attached to the range (RFC 7231 gives them no meaning)",
